@@ -130,22 +130,22 @@ CHECKS = {
         "max_skip_fraction": 0.10,
         "rule": "one run = one generated input from the real writer decoded by the real push decoder under delivery schedules chosen by the simulator. CSV / JSON / IPC stream: one chunk (reference), EVERY single "
                 "split point (stride n/3000 for long inputs), one byte at a time, 1-6 tape-chosen multi-splits with empty chunks where the protocol makes them no-ops, and the same again for a tape-chosen strict "
-                "prefix (invalid input). Parquet metadata push decoder: whole file in one range (reference, also compared with the pull reader), exact answers only, the file pre-pushed as two consecutive buffers "
+                "prefix (invalid input); the Avro single-object Decoder is driven the same way. Parquet metadata push decoder: whole file in one range (reference, also compared with the pull reader), exact answers only, the file pre-pushed as two consecutive buffers "
                 "for EVERY split point, a tail prefetch of EVERY length, uniform consecutive buffers of 9 sizes, tape-chosen overlapping / duplicated buffers; for the valid file, a truncated file and a file with one "
                 "flipped footer bit. Flight decoder: the encoder's message sequence and one invalid variant (schema repeated, schema missing, body truncated, message dropped) under EVERY Pending/Ready pattern "
                 "(2^(n+1), capped at 4096 sampled patterns); executions_of_real_code = decoder executions; distinct = distinct (decoder, input length, rows, multi-split cut sets)",
         "required_probes": ["probe.reference_is_error"],
         "components": {
             "real": ["arrow_csv::reader::Decoder (+ RecordDecoder), arrow_json::reader::Decoder (+ TapeDecoder), arrow_ipc::reader::StreamDecoder, driven by the loops documented on each type",
-                     "parquet::file::metadata::ParquetMetaDataPushDecoder + PushBuffers (reference: ParquetMetaDataReader)", "arrow_flight::decode::{FlightRecordBatchStream, FlightDataDecoder} (messages from the real FlightDataEncoder)",
+                     "arrow_avro::reader::Decoder with a SchemaStore over single-object-encoded streams from the real writer (chunk dependence there is a listed known finding)", "parquet::file::metadata::ParquetMetaDataPushDecoder + PushBuffers (reference: ParquetMetaDataReader)", "arrow_flight::decode::{FlightRecordBatchStream, FlightDataDecoder} (messages from the real FlightDataEncoder)",
                      "arrow_csv::Writer, arrow_json writers, arrow_ipc::writer::StreamWriter, parquet ArrowWriter (produce the inputs); arrow_csv::Reader, arrow_json::Reader, arrow_ipc StreamReader (pull readers compared on valid input)"],
             "stub": ["the producer that cuts the byte stream into chunks / chooses which byte ranges are buffered up front (seeded / enumerated schedule)", "the Flight message stream (Pending pattern enumerated) and the manual executor"],
-            "not_run": ["arrow_avro Decoder (single-object framing; not built)", "bit-flipped inputs for CSV / JSON / IPC (only truncation is used as invalid input there)"],
+            "not_run": ["arrow_avro OCF streaming through the Decoder (only single-object framing is driven)", "bit-flipped inputs for CSV / JSON / IPC (only truncation is used as invalid input there)"],
         },
         "level_text": "seeded exploration of delivery schedules (every single split point enumerated per input, byte-at-a-time, random multi-splits with empty chunks; every two-buffer split and every tail prefetch of a Parquet "
                       "file; every Pending/Ready pattern of a Flight message sequence) of five push decoders against their own one-delivery result and the pull reader; sampling of inputs, not proof",
         "design_ref": "DESIGN.md section 4 (C14), section 11",
-        "level_note": "covers the CSV, JSON, IPC stream, Parquet metadata and Flight decoders; the Avro decoder named by the property is NOT exercised; flush is issued where the documented loop issues it (not at every "
+        "level_note": "covers the CSV, JSON, IPC stream, Avro single-object, Parquet metadata and Flight decoders (the Avro decoder's chunk dependence is a known finding, so every Avro run ends at it); flush is issued where the documented loop issues it (not at every "
                       "permitted point); a damaged input on which the decoder panics even in one delivery is counted and left to C08; trusted: in-tree simulator, row extraction, validate_full",
         "technique": "deterministic simulation: the input transport is a seam owned by the simulator, which enumerates / samples the delivery schedule; reference = single delivery; tape replay + shrinking",
         "assumptions": TRUSTED + [
